@@ -51,9 +51,13 @@ package parse
 //@   ensures p.errors.arr == old(p.errors.arr) || fresh(p.errors.arr)
 //@   ensures old(p.failed) ==> p.failed
 
+// A declaration is `var`, a list of names and one type: every identifier read but the last is one of its
+// names, the last is the type of them all (C02: the kind a name is declared with is the one written behind it).
 //@ func (p *metaParser) parseDecl() (d)
 //@   requires p.scanner != nil && p.fset != nil && scanLeft >= 0
-//@   assigns p.pos, p.tok, p.text, p.failed, p.errors, elems(p.errors), scanLeft
+//@   assigns p.pos, p.tok, p.text, p.failed, p.errors, elems(p.errors), scanLeft, identsRead
+//@   at call (*parse.metaParser).parseIdent set identsRead = identsRead + ite(result0 != nil, 1, 0)
+//@   ensures [C02,C13] one-type-for-the-names-written-before-it: d != nil ==> identsRead - old(identsRead) == len(d.Names) + 1 && d.Type != nil
 //@   ensures scanLeft >= 0
 //@   ensures [C08] consumes-a-token: old(scanLeft) > 0 ==> scanLeft < old(scanLeft)
 //@   ensures [C08] old(scanLeft) <= 0 ==> scanLeft == 0 && p.tok == 1
@@ -65,11 +69,12 @@ package parse
 //@     invariant p.errors.arr == old(p.errors.arr) || fresh(p.errors.arr)
 //@     invariant old(p.failed) ==> p.failed
 //@     invariant d.Names.arr == 0 || fresh(d.Names.arr)
+//@     invariant [C02,C13] identsRead - old(identsRead) == len(d.Names)
 //@     decreases scanLeft + ite(p.tok == 1, 0, 1)
 
 //@ func (p *metaParser) parse() (m)
 //@   requires p.scanner != nil && p.fset != nil && scanLeft >= 0
-//@   assigns p.pos, p.tok, p.text, p.failed, p.errors, elems(p.errors), scanLeft
+//@   assigns p.pos, p.tok, p.text, p.failed, p.errors, elems(p.errors), scanLeft, identsRead
 //@   loop 0
 //@     invariant scanLeft >= 0
 //@     invariant p.errors.arr == old(p.errors.arr) || fresh(p.errors.arr)
